@@ -26,6 +26,9 @@ var repairDevs = []dev{
 	{"ss_master_on_replica", func(m, o, d string) *InitState { return &InitState{SSMaster: pb(true), SSSlave: pb(false)} }},
 	{"ss_slave_off", func(m, o, d string) *InitState { return &InitState{SSSlave: pb(false)} }},
 	{"behind", func(m, o, d string) *InitState { return &InitState{BehindTxns: 3, IO: pb(false)} }},
+	{"source_other_replica_io_error", func(m, o, d string) *InitState { return &InitState{Source: ps(o), IOErrno: 2003} }},
+	{"source_decoy_sql_error", func(m, o, d string) *InitState { return &InitState{Source: ps(d), SQLErrno: 1062, BehindTxns: 1} }},
+	{"source_other_replica_io_stopped", func(m, o, d string) *InitState { return &InitState{Source: ps(o), IO: pb(false)} }},
 	{"writable_offline_stopped", func(m, o, d string) *InitState {
 		return &InitState{ReadOnly: pb(false), Offline: pb(true), IO: pb(false), SQL: pb(false)}
 	}},
